@@ -362,7 +362,7 @@ func checkPrinters(anns []Ann) (key, msg string, facts map[string]bool) {
 
 func TestPrinters(t *testing.T) {
 	r := evid.R()
-	r.Check(t, r.Scale(8000, 400000), 1, func(t *rapid.T) {
+	r.Check(t, r.Scale(8000, 300000), 1, func(t *rapid.T) {
 		allowNewline := rapid.IntRange(0, 9).Draw(t, "newlines") < 3
 		nPaths := rapid.IntRange(1, 3).Draw(t, "npaths")
 		paths := make([]string, nPaths)
